@@ -1,2 +1,551 @@
+"""Engine V: Verus on functions extracted mechanically from /repo on every run.
+
+A unit is a template (contracts/verus/<unit>.rs): hand-written Verus text (spec
+functions, lemmas, trusted prelude) plus directives that pull the *current*
+text of named items out of /repo and insert contract clauses / loop invariants /
+proof blocks at name- and ordinal-based anchors:
+
+  //@ source src/common.rs
+  //@ item struct IOQueue
+  //@ fn impl IOQueue :: consume ret=r as=newname
+  //@+ requires ...            contract clauses, inserted between signature and body
+  //@loop 1 invariant ...      inserted before the `{` of the 1st loop of the body
+  //@forit 1 it                `for p in E` -> `for p in it: E` (ghost iterator name)
+  //@proof start|loop1.start|loop1.end|before:/re/|after:/re/ <text>
+  //@subst <label> /regex/replacement/    logged normalisation; must match >= 1 time
+
+Everything the extraction changes is a logged normalisation; a lost anchor,
+a type error or an unsupported construct is Undecided (exit 2), never a
+violation. Only verification failures located in extracted functions count as
+failed obligations.
+"""
+import json
+import os
+import re
+import shlex
+from concurrent.futures import ThreadPoolExecutor
+
+import rustscan as RS
+from common import CACHE, REPO, VERIF, Undecided, log, read, run, scratch_dir, write
+
+VERUS_DIR = os.path.join(VERIF, "contracts", "verus")
+
+KEEP_DERIVES = {"Clone", "Copy", "PartialEq", "Eq"}
+
+VERIF_FAIL = (
+    "postcondition not satisfied", "precondition not satisfied", "invariant not satisfied",
+    "assertion failed", "possible arithmetic underflow/overflow", "decreases not satisfied",
+    "possible division by zero", "loop invariant not", "unreachable_unchecked", "failed this",
+    "possible bit shift underflow/overflow", "assertion failure", "could not prove termination",
+    "type invariant not satisfied", "cannot show invariant", "may panic", "possible overflow",
+)
+
+
+class Obligation:
+    def __init__(self, name, function, status, kind="", message="", source=""):
+        self.name, self.function, self.status, self.kind, self.message, self.source = (
+            name, function, status, kind, message, source)
+
+
+class UnitResult:
+    def __init__(self, name):
+        self.name = name
+        self.obligations = []
+        self.cmd = ""
+        self.solver_s = 0.0
+        self.trusted = []
+        self.normalisations = {}
+        self.functions = []
+        self.must_fail_ok = 0
+
+
+class ExtractedFn:
+    def __init__(self, label, src, header, name):
+        self.label, self.src, self.header, self.name = label, src, header, name
+        self.out_name = name
+        self.text = ""
+        self.line_start = self.line_end = 0
+        self.has_contract = False
+
+
+def n1_strip(text, norm):
+    """N1: attributes Verus does not know, doc comments, tracing statements."""
+    def cnt(label, n):
+        if n:
+            norm[label] = norm.get(label, 0) + n
+    text, n = re.subn(r"(?m)^[ \t]*///.*\n", "", text)
+    cnt("N1 doc comments removed", n)
+    text, n = re.subn(r"(?m)^[ \t]*#\[(inline(\([a-z]+\))?|must_use|tracing::instrument[^\]]*|allow\([^\]]*\)|doc[^\]]*|cfg_attr\([^\]]*\))\][ \t]*\n", "", text)
+    cnt("N1 attributes removed (#[inline], #[tracing::instrument], #[allow], #[must_use])", n)
+    text, n = re.subn(r"(?m)^[ \t]*tracing::(trace|debug|info|warn|error)!\((?:[^;]|\n)*?\);[ \t]*\n", "", text)
+    cnt("N1 tracing::*! statements removed", n)
+
+    def derive(m):
+        keep = [d.strip() for d in m.group(1).split(",") if d.strip() in KEEP_DERIVES]
+        dropped = [d.strip() for d in m.group(1).split(",") if d.strip() and d.strip() not in KEEP_DERIVES]
+        if dropped:
+            norm["N1 derives dropped (%s)" % ",".join(sorted(dropped))] = norm.get(
+                "N1 derives dropped (%s)" % ",".join(sorted(dropped)), 0) + 1
+        return ("#[derive(%s)]" % ", ".join(keep)) if keep else ""
+    text = re.sub(r"#\[derive\(([^)]*)\)\]", derive, text)
+    return text
+
+
+def _parse_subst(arg):
+    # <label words> /regex/replacement/
+    m = re.match(r"(.*?)\s*/((?:[^/\\]|\\.)*)/((?:[^/\\]|\\.)*)/\s*$", arg)
+    if not m:
+        raise Undecided("bad //@subst: " + arg)
+    unesc = lambda s: s.replace("\\/", "/")
+    return m.group(1).strip() or "subst", unesc(m.group(2)), unesc(m.group(3))
+
+
+class Unit:
+    def __init__(self, name):
+        self.name = name
+        self.path = os.path.join(VERUS_DIR, name + ".rs")
+        self.template = read(self.path)
+        self.props = []
+        self.norm = {}
+        self.fns = []
+        self.sources = {}
+        self.tier = "quick"
+        m = re.search(r"(?m)^//@ props (.*)$", self.template)
+        if m:
+            self.props = m.group(1).split()
+        m = re.search(r"(?m)^//@ tier (\w+)$", self.template)
+        if m:
+            self.tier = m.group(1)
+
+    def _src(self, rel):
+        if rel not in self.sources:
+            p = os.path.join(REPO, rel)
+            if not os.path.exists(p):
+                raise Undecided("lost anchor: source file %s" % rel)
+            t = read(p)
+            self.sources[rel] = (t, RS.mask(t))
+        return self.sources[rel]
+
+    # -- extraction ---------------------------------------------------------
+    def _extract_item(self, src, kind, name, extra):
+        text, masked = self._src(src)
+        r = RS.find_item(text, masked, kind, name)
+        if not r:
+            raise Undecided("lost anchor: %s %s in %s" % (kind, name, src))
+        t = n1_strip(text[r[0]:r[1]] + "\n", self.norm)
+        for kind_, arg in extra:
+            if kind_ == "subst":
+                label, rx, rp = _parse_subst(arg)
+                t, n = re.subn(rx, rp, t)
+                if n == 0:
+                    raise Undecided("lost anchor: subst '%s' on %s %s" % (label, kind, name))
+                self.norm[label] = self.norm.get(label, 0) + n
+        return t
+
+    def _extract_fn(self, src, header, name, opts, extra):
+        text, masked = self._src(src)
+        lo, hi = 0, len(text)
+        if header != "-":
+            b = RS.find_block(text, masked, header)
+            if not b:
+                raise Undecided("lost anchor: `%s` in %s" % (header, src))
+            lo, hi = b[1], b[2]
+        f = RS.find_fn(text, masked, name, lo, hi)
+        if not f:
+            raise Undecided("lost anchor: fn %s in `%s` (%s)" % (name, header, src))
+        sig = text[f["sig_start"]:f["body_open"]]
+        sig_m = masked[f["sig_start"]:f["body_open"]]
+        body = text[f["body_open"]:f["body_close"] + 1]
+        body_m = masked[f["body_open"]:f["body_close"] + 1]
+        attrs = text[f["item_start"]:f["line_start"]]
+        indent = f["indent"]
+
+        # ---- insertions into the body, applied from the back so offsets stay valid
+        ins = []  # (offset_in_body, text)
+        lps = RS.loops(body_m)
+        clauses, forit = {}, {}
+        contract = []
+        pre_attrs = []
+        substs = []
+        for kind, arg in extra:
+            if kind == "+":
+                contract.append(arg)
+            elif kind == "attr":
+                pre_attrs.append(arg)
+            elif kind == "loop":
+                k, _, t = arg.partition(" ")
+                clauses.setdefault(int(k), []).append(t)
+            elif kind == "forit":
+                k, _, t = arg.partition(" ")
+                forit[int(k)] = t.strip()
+            elif kind == "subst":
+                substs.append(_parse_subst(arg) + (True,))
+            elif kind == "subst?":
+                substs.append(_parse_subst(arg) + (False,))
+            elif kind == "proof":
+                anchor, _, t = arg.partition(" ")
+                if anchor == "start":
+                    ins.append((1, "\n" + t))
+                elif re.match(r"loop\d+\.(start|end)$", anchor):
+                    k = int(re.match(r"loop(\d+)", anchor).group(1))
+                    if k > len(lps):
+                        raise Undecided("lost anchor: loop %d of fn %s" % (k, name))
+                    ob = lps[k - 1][1]
+                    cb = RS.match_brace(body_m, ob)
+                    ins.append((ob + 1, "\n" + t) if anchor.endswith("start") else (cb, t + "\n"))
+                elif anchor.startswith("before:") or anchor.startswith("after:"):
+                    where, _, rx = anchor.partition(":")
+                    rx = rx.strip("/")
+                    # the regex may contain spaces encoded as \s; search line-wise on masked text
+                    mm = re.search(rx, body_m)
+                    if not mm:
+                        raise Undecided("lost anchor: /%s/ in fn %s" % (rx, name))
+                    if where == "before":
+                        ls = body.rfind("\n", 0, mm.start()) + 1
+                        ins.append((ls, t + "\n"))
+                    else:
+                        le = body.find("\n", mm.end())
+                        ins.append((le, "\n" + t))
+                else:
+                    raise Undecided("bad proof anchor %s" % anchor)
+        for k, cl in clauses.items():
+            if k > len(lps):
+                raise Undecided("lost anchor: loop %d of fn %s" % (k, name))
+            ins.append((lps[k - 1][1], "\n" + "\n".join(cl) + "\n"))
+        for k, itname in forit.items():
+            if k > len(lps):
+                raise Undecided("lost anchor: loop %d of fn %s" % (k, name))
+            kw = lps[k - 1][0]
+            mm = re.compile(r"\bin\b").search(body_m, kw, lps[k - 1][1])
+            if not mm:
+                raise Undecided("lost anchor: `in` of for-loop %d in fn %s" % (k, name))
+            ins.append((mm.end(), " %s:" % itname))
+            self.norm["N10 ghost iterator name added to for-loop"] = self.norm.get(
+                "N10 ghost iterator name added to for-loop", 0) + 1
+        for off, t in sorted(ins, key=lambda x: -x[0]):
+            body = body[:off] + t + body[off:]
+
+        # ---- signature: name the return value, rename
+        if "ret" in opts:
+            depth = 0
+            k = 0
+            arrow = None
+            while k < len(sig_m):
+                ch = sig_m[k]
+                if ch in "([":
+                    k = RS.match_brace(sig_m, k)
+                elif sig_m.startswith("->", k):
+                    arrow = k
+                    break
+                k += 1
+            if arrow is not None:
+                wm = re.search(r"\bwhere\b", sig_m[arrow:])
+                tend = arrow + wm.start() if wm else len(sig)
+                ty = sig[arrow + 2:tend].strip()
+                sig = sig[:arrow] + "-> (%s: %s)" % (opts["ret"], ty) + (" " + sig[tend:] if wm else "")
+                self.norm["N10 return value named in signature"] = self.norm.get(
+                    "N10 return value named in signature", 0) + 1
+            else:
+                raise Undecided("fn %s has no return type to name" % name)
+        out_name = opts.get("as", name)
+        if out_name != name:
+            sig = re.sub(r"\bfn\s+%s\b" % re.escape(name), "fn " + out_name, sig, count=1)
+            self.norm["N5 method re-homed/renamed (trait linkage dropped)"] = self.norm.get(
+                "N5 method re-homed/renamed (trait linkage dropped)", 0) + 1
+        if opts.get("vis") == "strip":
+            sig = re.sub(r"^pub(\([a-z]+\))?\s+", "", sig)
+        sig = sig.rstrip()
+        full = attrs + indent + sig
+        if contract:
+            full += "\n" + "\n".join(indent + "    " + c for c in contract) + "\n" + indent
+        else:
+            full += " "
+        full += body + "\n"
+        full = n1_strip(full, self.norm)
+        for label, rx, rp, required in substs:
+            full, n = re.subn(rx, rp, full)
+            if n == 0 and required:
+                raise Undecided("lost anchor: subst '%s' in fn %s" % (label, name))
+            if n:
+                self.norm[label] = self.norm.get(label, 0) + n
+        if pre_attrs:
+            full = "\n".join(indent + a for a in pre_attrs) + "\n" + full
+        ef = ExtractedFn("%s::%s" % (header if header != "-" else src, name), src, header, name)
+        ef.out_name = out_name
+        ef.text = full
+        ef.has_contract = bool(contract)
+        ef.external = any("external" in a for a in pre_attrs)
+        return ef
+
+    # -- template expansion -------------------------------------------------
+    def generate(self, must_fail=False):
+        """Returns (text, fns). With must_fail, `ensures false` is added to every
+        extracted function under contract (vacuity guard)."""
+        self.norm = {}
+        self.fns = []
+        out = []
+        lines = self.template.split("\n")
+        src = None
+        i = 0
+        while i < len(lines):
+            ln = lines[i]
+            s = ln.strip()
+            if s.startswith("//@ source "):
+                src = s.split(None, 2)[2].strip()
+                i += 1
+                continue
+            if s.startswith("//@ props") or s.startswith("//@ unit") or s.startswith("//@ tier") or s.startswith("//@#"):
+                i += 1
+                continue
+            if s.startswith("//@ item ") or s.startswith("//@ fn "):
+                extra = []
+                j = i + 1
+                while j < len(lines):
+                    t = lines[j].strip()
+                    m = re.match(r"//@(\+|loop|proof|subst\?|subst|forit|attr)\s?(.*)$", t)
+                    if not m:
+                        break
+                    extra.append((m.group(1), m.group(2)))
+                    j += 1
+                if s.startswith("//@ item "):
+                    parts = s.split()
+                    kind, name = parts[2], parts[3]
+                    opts = dict(kv.split("=", 1) for kv in parts[4:])
+                    out.append(("item", self._extract_item(opts.get("src", src), kind, name, extra)))
+                else:
+                    rest = s[len("//@ fn "):]
+                    header, _, tail = rest.partition(" :: ")
+                    parts = shlex.split(tail)
+                    name = parts[0]
+                    opts = dict(kv.split("=", 1) for kv in parts[1:])
+                    ef = self._extract_fn(opts.get("src", src), header.strip(), name, opts, extra)
+                    if must_fail and (must_fail is True or must_fail == ef.out_name) and ef.has_contract and not ef.external:
+                        if re.search(r"(?m)^\s*ensures\b", ef.text):
+                            ef.text = re.sub(r"(?m)^(\s*)ensures\b", r"\1ensures false,", ef.text, count=1)
+                        else:
+                            ef.text = ef.text  # no ensures: nothing to make fail
+                    self.fns.append(ef)
+                    out.append(("fn", ef))
+                i = j
+                continue
+            if s.startswith("//@"):
+                raise Undecided("unknown directive in %s: %s" % (self.name, s))
+            out.append(("raw", ln + "\n"))
+            i += 1
+        text = ""
+        for kind, seg in out:
+            if kind == "fn":
+                seg.line_start = text.count("\n") + 1
+                text += seg.text
+                seg.line_end = text.count("\n")
+            else:
+                text += seg
+        return text
+
+    def trusted_scan(self, text):
+        """Mechanical scan of the generated file for every assumption left."""
+        found = []
+        masked = RS.mask(text)
+        for m in re.finditer(r"\b(assume_specification|external_body|external_type_specification|external_fn_specification|external_trait_specification|admit|assume)\b", masked):
+            w = m.group(1)
+            ls = text.rfind("\n", 0, m.start()) + 1
+            # describe by the next item line
+            tail = text[m.start():m.start() + 400]
+            if w in ("assume", "admit"):
+                if not re.match(r"(assume|admit)\s*\(", masked[m.start():m.start() + 12]):
+                    continue
+                found.append("verus %s(..) at generated line %d" % (w, text.count("\n", 0, m.start()) + 1))
+                continue
+            mm = re.search(r"(assume_specification[^\n;{]*|fn\s+\w+|struct\s+\w+|trait\s+\w+)", tail)
+            found.append("verus %s: %s" % (w, re.sub(r"\s+", " ", mm.group(1)) if mm else "?"))
+        return sorted(set(found))
+
+
+def run_verus_file(path, timeout=600, rlimit=None, threads=8):
+    cmd = ["verus", path, "--output-json", "--time-expanded", "--num-threads", str(threads)]
+    if rlimit:
+        cmd += ["--rlimit", str(rlimit)]
+    cmd += ["--", "--error-format=json"]
+    import subprocess
+    import time as _t
+    t0 = _t.time()
+    e = dict(os.environ)
+    try:
+        p = subprocess.run(cmd, cwd=os.path.dirname(path), capture_output=True, text=True, timeout=timeout, env=e)
+    except subprocess.TimeoutExpired:
+        return None, None, [], _t.time() - t0, " ".join(cmd)
+    try:
+        js = json.loads(p.stdout[p.stdout.index("{"):])
+    except Exception:
+        js = None
+    diags = []
+    for ln in p.stderr.splitlines():
+        if ln.startswith("{"):
+            try:
+                d = json.loads(ln)
+                if d.get("$message_type") == "diagnostic" or "message" in d:
+                    diags.append(d)
+            except Exception:
+                pass
+        elif ln.strip():
+            diags.append({"level": "note", "message": ln, "spans": [], "rendered": ln})
+    return p.returncode, js, diags, _t.time() - t0, " ".join(cmd)
+
+
+def _breakdown(js):
+    res = {}
+    try:
+        for mod in js["times-ms"]["smt"]["smt-run-module-times"]:
+            for f in mod.get("function-breakdown", []):
+                res[f["function"]] = f
+    except Exception:
+        pass
+    return res
+
+
+def verify_unit(unit, tier, workdir):
+    res = UnitResult(unit.name)
+    text = unit.generate(False)
+    fns = list(unit.fns)
+    norm = dict(unit.norm)
+    path = os.path.join(workdir, unit.name + ".rs")
+    write(path, text)
+    write(os.path.join(CACHE, "logs", "verus-%s.rs" % unit.name), text)
+    # vacuity variants: one file per contracted function, with `ensures false` added to that function only
+    mf_jobs = []
+    for ef in fns:
+        if getattr(ef, "external", False) or not ef.has_contract:
+            continue
+        t = unit.generate(ef.out_name)
+        tgt = [f for f in unit.fns if f.out_name == ef.out_name][0]
+        if "ensures false," not in tgt.text:
+            continue
+        pth = os.path.join(workdir, "%s_mf_%s.rs" % (unit.name, ef.out_name))
+        write(pth, t)
+        mf_jobs.append((ef.out_name, pth, tgt.line_start, tgt.line_end))
+    with ThreadPoolExecutor(14) as ex:
+        fut = ex.submit(run_verus_file, path, 600, None, 8)
+        mf_futs = [(j, ex.submit(run_verus_file, j[1], 300, None, 1)) for j in mf_jobs]
+        rc, js, diags, wall, cmd = fut.result()
+        mf_results = [(j, f.result()) for j, f in mf_futs]
+    res.cmd = "verus <generated %s.rs: template contracts/verus/%s.rs + items extracted from /repo> --output-json --time-expanded" % (unit.name, unit.name)
+    res.normalisations = norm
+    res.trusted = unit.trusted_scan(text)
+    write(os.path.join(CACHE, "logs", "verus-%s.diag" % unit.name),
+          "\n".join(d.get("rendered") or d.get("message", "") for d in diags))
+    if rc is None or js is None:
+        raise Undecided("verus produced no result for unit %s (timeout or crash): %s" % (
+            unit.name, "\n".join(d.get("message", "") for d in diags)[:1500]))
+    vr = js.get("verification-results", {})
+    errors = [d for d in diags if d.get("level") == "error" and not d.get("message", "").startswith("aborting due")]
+    bd = _breakdown(js)
+    try:
+        res.solver_s = js["times-ms"]["smt"]["smt-run"] / 1000.0
+    except Exception:
+        pass
+
+    def fn_of_line(line):
+        for ef in fns:
+            if ef.line_start <= line <= ef.line_end:
+                return ef
+        return None
+
+    # classify errors
+    per_fn = {}
+    other_verif = []
+    hard = []
+    for d in errors:
+        msg = d.get("message", "")
+        is_verif = any(k in msg for k in VERIF_FAIL)
+        prim = [s for s in d.get("spans", []) if s.get("is_primary")] or d.get("spans", [])
+        efs = [fn_of_line(s["line_start"]) for s in prim] + [fn_of_line(s["line_start"]) for s in d.get("spans", [])]
+        efs = [e for e in efs if e]
+        # a failed postcondition's primary span is the ensures clause (inside the fn's own range);
+        # a failed precondition's primary span is the call site: both lie in the function whose body is at fault
+        if not is_verif:
+            if "rlimit" in msg.lower() or "resource limit" in msg.lower():
+                hard.append("rlimit: " + (d.get("rendered") or msg)[:600])
+            else:
+                hard.append((d.get("rendered") or msg)[:1200])
+            continue
+        if efs:
+            # attribute to the function in which the failing *body* lies: prefer a span inside a body
+            per_fn.setdefault(efs[0].label, []).append((msg, d.get("rendered", "")))
+        else:
+            other_verif.append((msg, d.get("rendered", "")))
+    if vr.get("encountered-vir-error") or (hard and not bd):
+        raise Undecided("verus rejected unit %s (unsupported construct / type error after extraction):\n%s" % (
+            unit.name, "\n".join(hard)[:3000]))
+    if hard:
+        raise Undecided("verus unit %s: %s" % (unit.name, "\n".join(hard)[:3000]))
+    if other_verif:
+        # a failing hand-written lemma/spec is a defect of the machinery, not of /repo
+        raise Undecided("verus unit %s: proof obligation outside extracted code failed (machinery, not /repo):\n%s" % (
+            unit.name, "\n".join(r for _, r in other_verif)[:3000]))
+
+    # obligations: one per function with SMT queries (extracted fns + lemmas)
+    def bd_for(out_name):
+        return [v for k, v in bd.items() if k.split("::")[-1] == out_name]
+
+    seen = set()
+    for ef in fns:
+        if getattr(ef, "external", False):
+            continue
+        name = "verus:%s::%s" % (unit.name, ef.out_name)
+        res.functions.append("%s (%s)" % (ef.label, ef.src))
+        seen.add(ef.out_name)
+        if ef.label in per_fn:
+            kinds = sorted(set(m for m, _ in per_fn[ef.label]))
+            res.obligations.append(Obligation(
+                name, ef.label, "failed", "; ".join(kinds),
+                "\n".join(r for _, r in per_fn[ef.label])[:6000], ef.text))
+        else:
+            b = bd_for(ef.out_name)
+            if b and not all(x.get("success") for x in b):
+                res.obligations.append(Obligation(name, ef.label, "undecided", "", "verus reports failure without a located error"))
+            else:
+                res.obligations.append(Obligation(name, ef.label, "proved"))
+    for k, v in bd.items():
+        short = k.split("::")[-1]
+        if short in seen:
+            continue
+        if v.get("success"):
+            res.obligations.append(Obligation("verus:%s::lemma:%s" % (unit.name, short), k, "proved"))
+        else:
+            res.obligations.append(Obligation("verus:%s::lemma:%s" % (unit.name, short), k, "undecided", "", "lemma failed"))
+
+    # vacuity: with `ensures false` added, each contracted function must FAIL (its precondition is
+    # satisfiable and the end of its body reachable)
+    for (out_name, pth, l0, l1), (rc2, js2, diags2, wall2, _) in mf_results:
+        if js2 is None:
+            raise Undecided("vacuity run of %s::%s gave no result" % (unit.name, out_name))
+        errs2 = [d for d in diags2 if d.get("level") == "error"]
+        bad2 = [d for d in errs2 if not any(k in d.get("message", "") for k in VERIF_FAIL)
+                and not d.get("message", "").startswith("aborting due")]
+        if bad2:
+            raise Undecided("vacuity run of %s::%s did not compile: %s" % (unit.name, out_name, bad2[0].get("rendered", "")[:800]))
+        failed = any(l0 <= sp["line_start"] <= l1 for d in errs2 for sp in d.get("spans", []))
+        if failed:
+            res.must_fail_ok += 1
+        else:
+            res.obligations.append(Obligation(
+                "verus:%s::%s::vacuity" % (unit.name, out_name), out_name, "undecided", "",
+                "vacuity guard: `ensures false` verified - precondition unsatisfiable or body end unreachable"))
+    return res
+
+
 def run_units(prop, units, tier, only=None):
-    return []
+    wd = scratch_dir("verus-" + prop)
+    todo = []
+    for name in units:
+        u = Unit(name)
+        if tier == "quick" and u.tier != "quick":
+            continue
+        if only and name not in only and not any(o.startswith("c") for o in only):
+            continue
+        todo.append(u)
+    results = []
+    with ThreadPoolExecutor(max(1, min(4, len(todo)))) as ex:
+        for r in ex.map(lambda u: verify_unit(u, tier, wd), todo):
+            results.append(r)
+    return results
